@@ -787,10 +787,6 @@ package graphql
 //@   trusted
 //@   assigns nothing
 
-//@ func IsCompositeType
-//@   trusted
-//@   pure
-
 //@ func Schema.Directive
 //@   props C02
 //@   nosafety
@@ -1456,11 +1452,13 @@ package graphql
 //@   ensures result1 == nil ==> calls("coerceValue") + calls("valueFromAST") == 1
 //@   ensures result1 == nil && !isNullish_0(input) ==> calls("coerceValue") == 1
 //@   ensures result1 == nil && isNullish_0(input) && definitionAST.DefaultValue != nil ==> calls("valueFromAST") == 1
+// (defining postconditions, were frames) the kind predicates decide by the NAMED type under the wrappers
 //@ func IsInputType
-//@   props C02
+//@   props C02 C11 C05
 //@   nosafety
 //@   functional
 //@   assigns nothing
+//@   ensures result <==> (typeis(GetNamed_0(ttype), "*graphql.Scalar") || typeis(GetNamed_0(ttype), "*graphql.Enum") || typeis(GetNamed_0(ttype), "*graphql.InputObject"))
 
 // coerceValue (C05): null stays null; a non-null wrapper is transparent; a single value for a list type
 // becomes a list of one; every input field is coerced against its own type from its own entry, gets its
@@ -2055,14 +2053,17 @@ package graphql
 //@   ensures typeis(p.Node, "*ast.Field") && as(p.Node, "*ast.Field") != nil ==> calls("Type") == 1
 //@   ensures calls("Type") == 0 ==> calls("reportError") == 0
 //@ func IsLeafType
+//@   props C02 C04
+//@   nosafety
+//@   functional
+//@   assigns nothing
+//@   ensures result <==> (typeis(GetNamed_0(ttype), "*graphql.Scalar") || typeis(GetNamed_0(ttype), "*graphql.Enum"))
+//@ func IsCompositeType
 //@   props C02
 //@   nosafety
 //@   functional
 //@   assigns nothing
-//@ func IsCompositeType
-//@   trusted
-//@   functional
-//@   assigns nothing
+//@   ensures result <==> (typeis(ttype, "*graphql.Object") || typeis(ttype, "*graphql.Interface") || typeis(ttype, "*graphql.Union"))
 
 // FragmentsOnCompositeTypes: a type condition is reported exactly when its type is known and not composite,
 // and the error is located at the type condition (C18).
